@@ -115,6 +115,12 @@ class ContractMixin:
         for m in mods:
             if m == 'nothing':
                 continue
+            if m.startswith('+'):
+                # only objects ALLOCATED AFTER this point (inside the loop / call): field (or '*') of
+                # every such instance of the class; objects that exist now keep their values
+                cls, _, field = m[1:].rpartition('.')
+                out.append((SV(TRef(self.classes.canon(cls)), None), None if field == '*' else field, 'NEW'))
+                continue
             if m.startswith('*'):
                 # class-wide: every instance of the class, field (or '*')
                 cls, _, field = m[1:].rpartition('.')
@@ -162,6 +168,13 @@ class ContractMixin:
                 if isinstance(guard, str) and guard == 'ALL':
                     st.heap[(dc, f)] = z3.Const(self.fresh_sym('H_%s' % f), arr.sort())
                     continue
+                if isinstance(guard, str) and guard == 'NEW':
+                    newarr = z3.Const(self.fresh_sym('H_%s' % f), arr.sort())
+                    r = z3.Int('fr!r')
+                    st.assume(z3.ForAll([r], z3.Implies(r < st.alloc, z3.Select(newarr, r) == z3.Select(arr, r)),
+                                        patterns=[z3.Select(newarr, r)]))
+                    st.heap[(dc, f)] = newarr
+                    continue
                 nv = fresh(fty, 'hv_' + f)
                 newarr = z3.Store(arr, ref.t, box(nv))
                 st.heap[(dc, f)] = newarr if guard is None else z3.If(guard, newarr, arr)
@@ -171,6 +184,8 @@ class ContractMixin:
         if self.frame is None:
             return
         for ref, field, guard in locs:
+            if isinstance(guard, str) and guard == 'NEW':
+                continue        # the callee writes only objects it allocates itself
             if isinstance(guard, str) and guard == 'ALL':
                 ok = any(isinstance(x[0], str) and x[0] == 'ALL' and x[2] == ref.ty.cls
                          and (x[1] is None or x[1] == field) for x in self.frame)
@@ -378,6 +393,35 @@ class ContractMixin:
                 s3.facts = s2.facts
                 out.append((s3, v))
             return out
+        if name == 'slice_step':
+            # lemma of sequences (valid for every s, i): 0 <= i < len(s)  ==>  s[:i+1] == s[:i] + [s[i]]
+            outs = []
+            for s2, (sq, i) in self.eval_many(st, e.args):
+                sq, i = self.need_value(sq), self.need_value(i)
+                if isinstance(sq.ty, TSeq) and sq.ty.elem is not TBottom:
+                    n = z3.Length(sq.t)
+                    lem = z3.Implies(z3.And(i.t >= 0, i.t < n),
+                                     z3.SubSeq(sq.t, 0, i.t + 1) == z3.Concat(z3.SubSeq(sq.t, 0, i.t), z3.SubSeq(sq.t, i.t, 1)))
+                    s2.fact(lem)
+                    st.fact(lem)
+                outs.append((s2, SV(TBool, z3.BoolVal(True))))
+            return outs
+        if name == 'entry':
+            ordn = getattr(self, 'cur_loop_ord', None)
+            ent = getattr(self, 'loop_entries', {}).get(ordn)
+            if ent is None:
+                raise OutsideSubset('entry() outside a for-loop invariant')
+            tmp = ent.copy()
+            tmp.pc = st.pc
+            tmp.facts = st.facts
+            res = self.eval(tmp, e.args[0])
+            out = []
+            for s2, v in res:
+                s3 = st.copy()
+                s3.pc = s2.pc
+                s3.facts = s2.facts
+                out.append((s3, v))
+            return out
         if name == 'updated':
             outs = []
             for s2, (m, k, v) in self.eval_many(st, e.args):
@@ -514,6 +558,17 @@ class ContractMixin:
                 return [(st, SV(ty, ty.inject('none')))]
             lt = ty.alt('lst')
             return [(st, SV(ty, ty.inject('lst', z3.Empty(lt.sort()))))]
+        if name == 'lst_item':
+            ty = parse_type('MItem')
+            outs = []
+            for s2, v in self.eval(st, e.args[0]):
+                v = self.need_value(v)
+                lt = ty.alt('lst')
+                if isinstance(v.ty, TSeq) and v.ty.elem is TBottom:
+                    outs.append((s2, SV(ty, ty.inject('lst', z3.Empty(lt.sort())))))
+                else:
+                    outs.append((s2, SV(ty, ty.inject('lst', coerce(v, lt, self.classes).t))))
+            return outs
         if name == 'is_alt':
             outs = []
             for s2, v in self.eval(st, e.args[0]):
@@ -533,6 +588,11 @@ class ContractMixin:
                 v = self.need_value(v)
                 cls = self.classes.canon(e.args[1].value)
                 outs.append((s2, SV(TRef(cls), v.t)))
+            return outs
+        if name == 'same_class':
+            outs = []
+            for s2, (a, b) in self.eval_many(st, e.args):
+                outs.append((s2, SV(TBool, self.cls_of(self.need_value(a).t) == self.cls_of(self.need_value(b).t))))
             return outs
         if name == 'isclass':
             # isclass(x, 'module.Class'): exact dynamic class
